@@ -57,6 +57,12 @@ WITNESSES = [  # Gen cfg, what the schedule shows
     ("Gen_ThreadPool_wit_respawn_after_drop.cfg", "the recovery thread respawns a worker whose handle Drop has already taken"),
     ("Gen_ThreadPool_wit_old_panic_after_restart.cfg", "restart: a task of the first start panics after the second start; its recovery thread is about to join it while the new generation works"),
     ("Gen_ThreadPool_wit_two_generations_run.cfg", "restart without stop: tasks of both generations run at the same time"),
+    ("Gen_ThreadPool_wit_stop_while_dead.cfg", "stop() while a panicked worker has not been replaced yet"),
+    ("Gen_ThreadPool_wit_stop_after_respawn.cfg", "stop() after a panicked worker was replaced"),
+    ("Gen_ThreadPool_wit_stop_busy_queued.cfg", "stop() returns while one task runs and another is still queued"),
+    ("Gen_ThreadPool_wit_two_panics_low.cfg", "two panics: worker 0 of 0..2 replaced, then worker 1 dies"),
+    ("Gen_ThreadPool_wit_two_panics_mid.cfg", "two panics: worker 1 of 0..2 replaced, then worker 2 dies"),
+    ("Gen_ThreadPool_wit_double_stop.cfg", "stop; stop: two workers leave through the two Shutdowns"),
 ]
 
 
@@ -206,6 +212,10 @@ def beh_str(b):
 # harness runs
 # ------------------------------------------------------------------------------------------------
 
+def n_ok_in_batch(res):
+    return sum(1 for x in res if x.get("ok"))
+
+
 def run_gated(pool_bin, behaviours, work, tag, chunk=300):
     """Forces the behaviours through the real pool. Returns (n_ok, fails [(behaviour, result)], trace files, steps)."""
     fails = []
@@ -223,12 +233,16 @@ def run_gated(pool_bin, behaviours, work, tag, chunk=300):
         res = parse_jsonl(p.stdout)
         summ = [x for x in res if x.get("summary")]
         if p.returncode != 0 or not summ:
-            raise vlib.ToolError("pool gated failed rc=%s: %s" % (p.returncode, p.stderr[-1500:]))
+            # the harness never exits non-zero by itself: the pool took the process down (abort, double panic ...)
+            crashed = batch[min(len(batch) - 1, n_ok_in_batch(res))]
+            fails.append((crashed, {"ok": False, "fail": {"kind": "crash", "step": None, "action": None,
+                                                          "detail": "harness process ended with rc=%s: %s" % (p.returncode, p.stderr[-600:])}}))
+            break
         s = summ[0]
         n_ok += s["ok"]
         steps += s["steps"]
         files.append(tf)
-        bad = [x for x in res if not x.get("summary") and not x.get("ok")]
+        bad = [x for x in res if not x.get("summary") and not x.get("ok", True)]
         if bad:
             # the process stopped at the failing behaviour (threads may be stuck inside the pool): go on after it
             fails.append((batch[s["behaviours"] - 1], bad[0]))
@@ -300,8 +314,8 @@ def _run(ctx, thorough, pool_bin, work, rng, replay):
                ("MC_ThreadPool_thorough_n2.cfg", 2), ("MC_ThreadPool_thorough_g2n1.cfg", 2), ("MC_ThreadPool_thorough_g3n1.cfg", 2),
                ("MC_ThreadPool_thorough_n1.cfg", 1)]
     else:
-        mcs = [("MC_ThreadPool_quick_g2n2.cfg", 4), ("MC_ThreadPool_quick_n2t3.cfg", 2), ("MC_ThreadPool_quick_g2n1.cfg", 1),
-               ("MC_ThreadPool_quick_n2.cfg", 1), ("MC_ThreadPool_quick_n1.cfg", 1)]
+        mcs = [("MC_ThreadPool_quick_g2n2.cfg", 3), ("MC_ThreadPool_quick_n2t3.cfg", 2), ("MC_ThreadPool_quick_g2n1.cfg", 2),
+               ("MC_ThreadPool_quick_g2n2t1.cfg", 1), ("MC_ThreadPool_quick_n2.cfg", 1), ("MC_ThreadPool_quick_n1.cfg", 1)]
     # the exhaustive runs go on in the background while the harness phases run (they need little CPU)
     bg = concurrent.futures.ThreadPoolExecutor(max_workers=3)
     mc_futs = {cfg: bg.submit(lambda cfg=cfg, w=w: run_tlc("MC_ThreadPool.tla", cfg, D, workers=w, coverage=True, timeout=5400,
@@ -310,7 +324,9 @@ def _run(ctx, thorough, pool_bin, work, rng, replay):
     sens = SENSITIVITY + ([("MC_ThreadPool_dev_RestartSharesHandles_isolated.cfg", "RestartSharesHandles", "temporal", "PanicIsolated")]
                           if thorough else [])
     for cfg, dev, kind, name in sens:
-        jobs.append((("dev", cfg), (lambda cfg=cfg: run_tlc("MC_ThreadPool.tla", cfg, D, workers=1, timeout=600, work_id="c08-" + cfg[:-4]))))
+        big = cfg.endswith("_isolated.cfg") and "Restart" in cfg      # 250 k states: more workers, generous timeout
+        jobs.append((("dev", cfg), (lambda cfg=cfg, big=big: run_tlc("MC_ThreadPool.tla", cfg, D, workers=4 if big else 1,
+                                                                     timeout=3000 if big else 1200, work_id="c08-" + cfg[:-4]))))
     jobs.append((("nopar", "x"), lambda: run_tlc("MC_ThreadPool.tla", "MC_ThreadPool_dev_RunUnderLock_par.cfg", D, workers=1, timeout=600,
                                                   work_id="c08-nopar")))
     for cfg in ("MC_ThreadPool_par_n1.cfg", "MC_ThreadPool_par_n2.cfg", "MC_ThreadPool_par_n3.cfg"):
@@ -419,7 +435,12 @@ def _run(ctx, thorough, pool_bin, work, rng, replay):
         ctx.sample({"forced_behaviour": beh_str(b)[:900], "origin": origin.get(beh_key(b))})
 
     # ---------------------------------------------------------------- 4. randomised real runs
-    chunks = [(200, 8, 200)] * 4 + [(200, 3, 12)] if thorough else [(50, 8, 200), (30, 3, 10)]
+    # (runs, max N, max tasks, scale?, trace cfg). "scale" runs: many threads x hundreds of tasks, exact counts;
+    # the last thorough chunk uses the default pool size of Humphrey's App (32 threads)
+    T0, TB = "Trace_ThreadPool.cfg", "Trace_ThreadPool_big.cfg"
+    chunks = ([(200, 8, 200, False, T0)] * 4 + [(200, 3, 12, False, T0), (20, 8, 200, True, T0), (8, 32, 600, True, TB)] if thorough
+              else [(50, 8, 200, False, T0), (30, 3, 10, False, T0), (3, 8, 200, True, T0)])
+    trace_cfg = {}
     rfiles = []
     fingerprints = set()
     total_runs = 0
@@ -428,13 +449,17 @@ def _run(ctx, thorough, pool_bin, work, rng, replay):
     monitored = 0
     barriers = 0
     restarts = 0
+    outliving = 0
     hangs = []
-    for i, (runs, maxn, maxt) in enumerate(chunks):
+    for i, (runs, maxn, maxt, scale, tcfg) in enumerate(chunks):
         tf = os.path.join(work, "random-%d.ndjson" % i)
-        p = run_bin(pool_bin, ["random", str(runs), tf, str(maxn), str(maxt)], env={"VERIF_SEED": ctx.seed * 1000 + i}, timeout=900)
+        trace_cfg[tf] = tcfg
+        p = run_bin(pool_bin, ["random", str(runs), tf, str(maxn), str(maxt)] + (["scale"] if scale else []), env={"VERIF_SEED": ctx.seed * 1000 + i}, timeout=900)
         summ = [x for x in parse_jsonl(p.stdout) if x.get("summary")]
         if p.returncode != 0 or not summ:
-            raise vlib.ToolError("pool random failed rc=%s: %s" % (p.returncode, p.stderr[-1500:]))
+            ctx.violation("randomised runs: the harness process ended with rc=%s (the pool took the process down): %s" % (p.returncode, p.stderr[-600:]),
+                          {"kind": "crash", "chunk": i, "stderr": p.stderr[-3000:]})
+            continue
         s = summ[0]
         total_runs += s["runs"]
         total_events += s["events"]
@@ -442,6 +467,7 @@ def _run(ctx, thorough, pool_bin, work, rng, replay):
         monitored += s.get("monitored_runs", 0)
         barriers += s.get("barrier_runs", 0)
         restarts += s.get("restart_runs", 0)
+        outliving += s.get("outliving_runs", 0)
         fingerprints.update(s["fingerprints"])
         rfiles.append(tf)
         if i == 0:
@@ -449,13 +475,26 @@ def _run(ctx, thorough, pool_bin, work, rng, replay):
                 ctx.sample({"random_run": x})
         if s["hang"]:
             hangs.append((tf, s["hang"]))
+            if len(hangs) >= 2:
+                break       # fail fast: two hanging chunks are enough (each costs the full escalating wait)
 
     # ---------------------------------------------------------------- 5. TLC validates every recorded log
     dall = os.path.join(work, "gated-all.ndjson")
     with open(dall, "w") as f:
         for g in gfiles:
             f.write(open(g).read())
-    vjobs = [(tf, (lambda tf=tf, i=i: validate_trace(tf, "c08-tr%d" % i))) for i, tf in enumerate(rfiles + [dall])]
+    def checked(tf, i):
+        try:
+            return validate_trace(tf, "c08-tr%d" % i, cfg=trace_cfg.get(tf, T0))
+        except vlib.ToolError as e:
+            # a log TLC cannot even evaluate (a field outside every domain of the model) is a rejected log, not a tool problem
+            if "timed out" not in str(e) and ("Attempted to" in str(e) or "outside the domain" in str(e) or "not in the domain" in str(e)):
+                r = vlib.TLCResult()
+                r.violation = "postcondition"
+                r.out = str(e)
+                return r
+            raise
+    vjobs = [(tf, (lambda tf=tf, i=i: checked(tf, i))) for i, tf in enumerate(rfiles + [dall])]
     vres = par(vjobs, 4)
     validated_runs = 0
     for tf in rfiles + [dall]:
@@ -485,7 +524,7 @@ def _run(ctx, thorough, pool_bin, work, rng, replay):
         ctx.violation("recorded run not explained by ThreadPool.tla at record %s: %s; model state before it: %s" % (
             pos, json.dumps(rej["context"][-1]) if rej else "?", json.dumps(st)),
             {"kind": "trace", "rejected_at": pos - start, "model_state": st, "log": lines[start:pos + 5]})
-    ctx.add_part("randomised real runs", runs=total_runs, events=total_events, lifecycle_shapes=shapes, runs_with_monitor_stream=monitored, barrier_runs_n_tasks_waiting_for_each_other=barriers, runs_with_restart=restarts,
+    ctx.add_part("randomised real runs", runs=total_runs, events=total_events, lifecycle_shapes=shapes, runs_with_monitor_stream=monitored, barrier_runs_n_tasks_waiting_for_each_other=barriers, runs_with_restart=restarts, runs_with_tasks_outliving_stop_and_drop=outliving,
                  distinct_interleavings=len(fingerprints), hangs=len(hangs))
 
     # ---------------------------------------------------------------- the exhaustive runs started at the beginning
